@@ -3450,7 +3450,8 @@ class FuncRemove(ValueFunc):
             lst.removeItem(element)
             return lst
         elif lst.isObject():
-            del lst.value[element.value]
+            if element.isString():
+                lst.value.pop(element.value, None)
             return lst
 
         raise CklRuntimeError(
